@@ -551,6 +551,15 @@ def gen(rng: random.Random, tier: str):
     for ln in range(0, 71):
         for _ in range(1 if tier == "quick" else 6):
             cases.append(_heap(rng, ln))
+    # large inputs: more than 1000 relation rows in shuffled order (own PRNG), a heap list beyond 1000 elements
+    r2 = random.Random(20240)
+    for lib in LIBS:
+        rows = [["n%02d" % i, "r", ({"v": i} if lib != "list" and i % 5 == 0 else {})] for i in range(34)]
+        rows += [["l%02d_%02d" % (i, j), "n%02d" % i, ({"v": j} if lib != "list" and j % 9 == 0 else {})]
+                 for i in range(34) for j in range(30)]
+        r2.shuffle(rows)
+        cases.append(mk({"fn": "rel", "lib": lib, "dupok": False, "rows": rows, "colorder": 0, "rep": 1}, ("rel", "large", "lib=" + lib)))
+    cases.append(_heap(r2, 1100))
     return cases
 
 
